@@ -267,7 +267,11 @@ class DotProduct(Expression):
 
         result: list[Expression] = []
         for var in variables:
-            if var in left_lookup:
+            if var in left_lookup and var in right_lookup:
+                # Overlapping vectors (e.g. two slices of one vector):
+                # the variable contributes through both factors
+                result.append(BinaryOp(left_lookup[var], right_lookup[var], "+"))
+            elif var in left_lookup:
                 result.append(left_lookup[var])
             elif var in right_lookup:
                 result.append(right_lookup[var])
